@@ -199,9 +199,13 @@ func (x *Exec) fresh(base string, s Sort) *T {
 // wfArray records the heap well-formedness fact that slice lengths stored anywhere are non-negative.
 // The facts are kept per array version and added to every obligation that mentions the version.
 func (x *Exec) wfArray(name string, t *T) {
+	if !t.S.IsArray() {
+		return // package-level variables are scalars, not heap arrays
+	}
 	if strings.HasSuffix(name, "_base") && strings.HasSuffix(t.Op, "!0") {
 		// the entry heap is closed under allocation: slices stored anywhere at entry have nil or entry-allocated backing arrays
 		x.prog.mu.Lock()
+		defer x.prog.mu.Unlock()
 		if _, ok := x.prog.defAxioms["wf:"+t.Op]; !ok {
 			r := Sym("r!wf", SInt)
 			a0 := Sym("Alloc!0", ArrSort(SInt, SBool))
@@ -216,7 +220,6 @@ func (x *Exec) wfArray(name string, t *T) {
 				x.prog.defAxioms["wf:"+t.Op] = Forall([]*T{r}, pattern(Implies(Select(a0, r), Or(Eq(sel, IntLit(0)), Select(a0, sel))), sel))
 			}
 		}
-		x.prog.mu.Unlock()
 		return
 	}
 	if !strings.HasSuffix(name, "_len") {
